@@ -296,6 +296,25 @@ func (x *decoX) stmt(s ast.Stmt, g gctx) {
 			x.stmt(el, g.with(cond, true))
 		}
 	case *ast.RangeStmt:
+		// a loop over a literal list of expressions is its body once per element
+		if cl, isLit := s.X.(*ast.CompositeLit); isLit && s.Value != nil && (s.Key == nil || c.ExprStr(s.Key) == "_") && len(cl.Elts) > 0 && len(cl.Elts) <= 8 {
+			if id, isID := s.Value.(*ast.Ident); isID && c.Info.Defs[id] != nil {
+				if c.Subst == nil {
+					c.Subst = map[types.Object]ast.Expr{}
+				}
+				v := c.Info.Defs[id]
+				for _, el := range cl.Elts {
+					if _, kv := el.(*ast.KeyValueExpr); kv {
+						x.other(s, g)
+						return
+					}
+					c.Subst[v] = el
+					x.stmts(s.Body.List, g, nil, nil, "")
+				}
+				delete(c.Subst, v)
+				return
+			}
+		}
 		src, ok := c.Path(s.X, x.n)
 		var vObj, kObj types.Object
 		if id, ok := s.Value.(*ast.Ident); ok {
@@ -328,9 +347,35 @@ func (x *decoX) stmt(s ast.Stmt, g gctx) {
 	case *ast.BlockStmt:
 		x.stmts(s.List, g, nil, nil, "")
 	case *ast.EmptyStmt:
+	case *ast.ExprStmt:
+		// a small same-package helper that only registers nodes in the maps is its body
+		if body, undo := c.ExpandCall([]ast.Stmt{s}); len(body) > 0 && body[0] != ast.Stmt(s) && onlyMapStores(body) {
+			x.stmts(body, g, nil, nil, "")
+			undo()
+			return
+		} else {
+			undo()
+		}
+		x.other(s, g)
 	default:
 		x.other(s, g)
 	}
+}
+
+// onlyMapStores: every statement is an assignment `m[k] = v`.
+func onlyMapStores(body []ast.Stmt) bool {
+	for _, st := range body {
+		as, ok := st.(*ast.AssignStmt)
+		if !ok || as.Tok != token.ASSIGN {
+			return false
+		}
+		for _, l := range as.Lhs {
+			if _, ok := l.(*ast.IndexExpr); !ok {
+				return false
+			}
+		}
+	}
+	return len(body) > 0
 }
 
 func (x *decoX) loopBody(list []ast.Stmt, g gctx, vObj, kObj types.Object, src string) {
